@@ -130,6 +130,10 @@ def check_struct(f, rep, ty, ctor, items, source, self_view, table=False):
             g = at.get(show(p))
             if t[0] == 'setter':
                 ok = g is not None and g[0] == 'int' and g[2] == s[2] and g[1] == ('a', 'self.' + t[1])
+                if not ok and g is not None and g[0] == 'int' and g[2] > s[2] and g[1] == ('a', 'self.' + t[1]):
+                    # emitted through a wider integer: the field's bytes followed by zero bytes (the layout rule decides
+                    # whether zeros are what the specification has there)
+                    lo_, hi_ = rng(g[1]); ok = lo_ >= 0 and hi_ < (1 << (8 * s[2]))
                 rep.ob('setter-placement', '%s.%s' % (ty, t[1]), ok, 'field %s of %s must be emitted at offset %s as a %d-byte little-endian value; found %s' % (t[1], ty, show(p), s[2], show_segs([g]) if g else 'nothing'),
                        sp=sp_, detail={'offset': show(p), 'width': s[2], 'found': show_segs([g]) if g else None})
             else:
